@@ -185,4 +185,92 @@ example : ∃ (u : Ucd) (f : Font) (c : Cfg) (text : List (Nat × Nat)), hasFlag
      rcases ht with rfl | rfl | rfl <;> decide,
    ⟨(0x200B, 1), by simp, by decide⟩⟩
 
+
+/-- C13_insert_noninterference: left-to-right text (script not natively right-to-left) on a font without
+    layout tables, where every character that is NOT default-ignorable is in scope, is not a mark,
+    cannot become a grapheme continuation, is not a variation selector and has a glyph; the
+    default ignorables are arbitrary (marks like CGJ and the variation selectors, ZWJ, tags, ...),
+    anywhere, any number, for any flags (default, REMOVE, even PRESERVE), any cluster level, any
+    input clusters, font with or without a space glyph.  Then the glyphs of the other characters
+    — glyph id, advances, offsets (`vis`), in order — are exactly those of the text with the default
+    ignorables taken out: own cmap glyph, own hmtx advance, zero offsets.
+    `NoDottedCircle`: when BEGINNING_OF_TEXT is set (without pre-context, font with U+25CC) and the
+    text starts with a default-ignorable MARK, `insert_dotted_circle` adds a visible U+25CC; that
+    case is excluded here and reported in the check.
+    The hypothesis "has a glyph" cannot be dropped: see `known_C13_vs_fallback`. -/
+theorem C13_insert_noninterference (u : Ucd) (f : Font) (c : Cfg) (text : List (Nat × Nat))
+    (hdir : c.dir = .ltr) (hnat : c.nat = none ∨ c.nat = some .ltr)
+    (hscope : ∀ t ∈ text, u.norm t.1 = false ∧ u.mcc t.1 = 0)
+    (hplain : ∀ t ∈ text, u.isDI t.1 = false →
+      PlainChar u t.1 ∧ isVS t.1 = false ∧ (nominal f t.1).isSome = true)
+    (hdot : NoDottedCircle u f c text) :
+    ∃ out out',
+      shape u f c text = .ok out ∧
+      shape u f c (text.filter fun t => !u.isDI t.1) = .ok out' ∧
+      (out.filter fun g => !u.isDI g.cp0).map vis = out'.map vis ∧
+      out'.map vis = (text.filter fun t => !u.isDI t.1).map fun t => visOf f t.1 := by
+  obtain ⟨out, hout, hvis⟩ := shape_insert_noninterference u f c text hdir hnat hscope hplain hdot
+  have hmem : ∀ t ∈ text.filter (fun t => !u.isDI t.1), t ∈ text ∧ u.isDI t.1 = false := by
+    intro t ht
+    simp only [List.mem_filter, Bool.not_eq_true'] at ht
+    exact ht
+  have hplainS := shape_plain u f c (text.filter fun t => !u.isDI t.1)
+    (fun t ht => hscope t (hmem t ht).1)
+    (fun t ht => (hplain t (hmem t ht).1 (hmem t ht).2).1)
+    (fun t ht => by rw [rotCp_ltr u f c _ hdir]; exact (hplain t (hmem t ht).1 (hmem t ht).2).2.2)
+    (Or.inl fun t ht => by rw [(hmem t ht).2, Bool.and_false])
+  rw [hdir] at hplainS
+  simp only [Dir.isBackward, Bool.false_eq_true, if_false] at hplainS
+  have hv : ((text.filter fun t => !u.isDI t.1).map (glyphOf u f c)).map vis
+      = (text.filter fun t => !u.isDI t.1).map fun t => visOf f t.1 := by
+    rw [List.map_map]
+    apply List.map_congr_left
+    intro t _
+    exact vis_glyphOf_ltr u f c t hdir
+  exact ⟨out, _, hout, hplainS, by rw [hvis, hv], hv⟩
+
+/-- hypotheses of C13_insert_noninterference are satisfiable with default ignorables of several kinds
+    in the text: ZWSP first, CGJ (a mark) and VS-1 after a letter, ZWJ, a tag at the end -/
+example : ∃ (u : Ucd) (f : Font) (c : Cfg) (text : List (Nat × Nat)),
+    c.dir = .ltr ∧ (c.nat = none ∨ c.nat = some .ltr) ∧
+    (∀ t ∈ text, u.norm t.1 = false ∧ u.mcc t.1 = 0) ∧
+    (∀ t ∈ text, u.isDI t.1 = false → PlainChar u t.1 ∧ isVS t.1 = false ∧ (nominal f t.1).isSome = true) ∧
+    NoDottedCircle u f c text ∧ (text.filter fun t => u.isDI t.1).length = 5 :=
+  ⟨⟨fun c => if c == 0x41 then 9 else if c == 0x34F || c == 0xFE00 then 12 else 1, fun _ => 0, genIsDI,
+      fun _ => false, fun _ => 0, fun _ => none, fun _ => none, fun _ => false⟩,
+   ⟨[⟨3, 1, fun c => if c == 0x41 then some 1 else none⟩], 1000, some (fun _ => some 500), none, 800, -200, none⟩,
+   ⟨.ltr, some .ltr, 8, 0, 0⟩,
+   [(0x200B, 0), (0x41, 1), (0x34F, 2), (0xFE00, 3), (0x41, 4), (0x200D, 5), (0xE0020, 6)],
+   rfl, Or.inr rfl,
+   by intro t _; exact ⟨rfl, rfl⟩,
+   by
+     intro t ht hd
+     simp only [List.mem_cons, List.not_mem_nil, or_false] at ht
+     rcases ht with rfl | rfl | rfl | rfl | rfl | rfl | rfl
+     all_goals first
+       | (exfalso; revert hd; decide)
+       | exact ⟨⟨by decide, by decide⟩, by decide, by decide⟩,
+   Or.inl (by decide),
+   by decide⟩
+
+/-- A genuine limit of the property (observed on the crate, stream `di-vs-fallback` of the check):
+    when a character has no glyph of its own and is rendered through a fallback of the normalizer
+    (here U+2003 EM SPACE → space glyph with an em-wide advance), a VARIATION SELECTOR inserted after
+    it (default-ignorable) makes `handle_variation_selector_cluster` skip the fallback: the other
+    character becomes .notdef.  Model-level witness, font {A ↦ 1, space ↦ 3}, upem 1000. -/
+def vsWitnessUcd : Ucd :=
+  ⟨fun c => if c == 0x2003 then 29 else if c == 0xFE00 then 12 else 9, fun _ => 0, genIsDI,
+   fun _ => false, fun c => if c == 0x2003 then 1 else 0, fun _ => none, fun _ => none, fun _ => false⟩
+def vsWitnessFont : Font :=
+  ⟨[⟨3, 1, fun c => if c == 0x41 then some 1 else if c == 0x20 then some 3 else none⟩], 1000,
+   some (fun g => some (100 * g + 50)), none, 800, -200, none⟩
+def vsWitnessCfg : Cfg := ⟨.ltr, some .ltr, 0, 0, 0⟩
+
+theorem known_C13_vs_fallback :
+    (∃ out, shape vsWitnessUcd vsWitnessFont vsWitnessCfg [(0x41, 0), (0x2003, 1)] = .ok out ∧
+        out.map vis = [(1, 150, 0, 0, 0), (3, 1000, 0, 0, 0)]) ∧
+    (∃ out, shape vsWitnessUcd vsWitnessFont vsWitnessCfg [(0x41, 0), (0x2003, 1), (0xFE00, 2)] = .ok out ∧
+        out.map vis = [(1, 150, 0, 0, 0), (0, 50, 0, 0, 0), (3, 0, 0, 0, 0)]) :=
+  ⟨⟨_, rfl, by decide⟩, ⟨_, rfl, by decide⟩⟩
+
 end RbModel.Pipeline
